@@ -443,9 +443,10 @@ def run(chk):
                 if tuple(X.shape) != (d, r):
                     chk.add(f'to_stiefel_choleskyL {kw}: output shape', [], ir.FALSE, key=f'to_stiefel_choleskyL shape {kw_key(kw)}', replay=rp)
                     continue
+                softc = (d, r) == (4, 2) and not is_real
                 for (i, j), cl in gram_is_identity(X):
                     chk.add(f'to_stiefel_choleskyL d={d} r={r} real={is_real}: (X^dag X)[{i},{j}] == delta', path.pc + path.facts + side_of(path), cl,
-                            key=f'to_stiefel_choleskyL not isometric {kw_key(kw)} real={is_real}', replay=rp)
+                            key=f'to_stiefel_choleskyL not isometric {kw_key(kw)} real={is_real}', replay=rp, kind='probe_forall' if softc else 'forall', timeout_s=150 if softc else None)
     # ---- Cayley chart
     for d in (2, 3):
         for is_real in (True, False):
@@ -464,8 +465,10 @@ def run(chk):
                     X = path.value
                     rp = ('c01', lambda m, th=th, kw=kw: theta_payload(m, th, 'to_special_orthogonal_cayley', 'so', kw))
                     pre = path.pc + path.facts + side_of(path)
+                    softc = d == 3 and not is_real and order == 2
                     for (i, j), cl in gram_is_identity(X):
-                        chk.add(f'cayley d={d} real={is_real} order={order}: (X^dag X)[{i},{j}] == delta', pre, cl, key=f'cayley not orthogonal/unitary {kw_key(kw)} real={is_real}', replay=rp)
+                        chk.add(f'cayley d={d} real={is_real} order={order}: (X^dag X)[{i},{j}] == delta', pre, cl, key=f'cayley not orthogonal/unitary {kw_key(kw)} real={is_real}', replay=rp,
+                                kind='probe_forall' if softc else 'forall', timeout_s=150 if softc else None)
                     if is_real:
                         chk.add(f'cayley d={d} real order={order}: det == 1', pre, H.eq_sc(det_small(X), 1), key=f'cayley det != 1 {kw_key(kw)}', replay=rp)
                 if d == 2 and order == 1:
